@@ -52,7 +52,7 @@ Reset(e) ==
   \* the script table is keyed by <<language (0 = native), bytes>>: the same compiled code under two Plutus versions is two scripts with two hashes
   /\ scripts' = IF Has(e, "scripts") THEN [b \in {<<e.scripts[i].lang, e.scripts[i].bytes>> : i \in 1..Len(e.scripts)} |-> (CHOOSE x \in {e.scripts[i] : i \in 1..Len(e.scripts)} : x.lang = b[1] /\ x.bytes = b[2])] ELSE <<>>
   /\ attach' = [p \in 0..5 |-> {}] /\ sdhFresh' = <<>> /\ rereg' = FALSE
-Balancing == {"AddChange", "AddInputsFromAndChange", "AddInputsFromAndChangeWithCollateralReturn"}
+Balancing == {"AddChange", "AddChangeWithDatum", "AddInputsFromAndChange", "AddInputsFromAndChangeWithCollateralReturn"}
 ColHelpers == {"SetCollateralReturnAndTotal", "SetTotalCollateralAndReturn", "AddInputsFromAndChangeWithCollateralReturn"}
 Op(e) ==
   /\ UNCHANGED <<env, pp, keys, byron, lastTx, scripts>>
@@ -68,15 +68,17 @@ Op(e) ==
   /\ colSt' = (IF e.op \in ColHelpers THEN (IF Has(e.r, "ok") THEN "helper" ELSE IF colSt \in {"unset", "failed"} THEN "failed" ELSE colSt)
                ELSE IF e.op \in {"SetCollateralReturn", "SetTotalCollateral"} /\ Has(e.r, "ok") THEN "raw"
                \* further collateral inputs after a helper ran make its figures stale; before any helper they change nothing
-               ELSE IF e.op = "AddCollateral" /\ Has(e.r, "ok") /\ colSt = "helper" THEN "raw" ELSE colSt)
+               ELSE IF e.op \in {"AddCollateral", "RemoveCollateralReturn", "RemoveTotalCollateral"} /\ Has(e.r, "ok") /\ colSt = "helper" THEN "raw" ELSE colSt)
   \* redeemer attachments: spends accumulate, the other purposes are replaced by the last successful Set* call
   /\ attach' = (IF Has(e.r, "ok") /\ e.op = "AddInput" /\ Has(e, "item") THEN [attach EXCEPT ![0] = {a \in @ : a.item # e.item}]     \* now a regular input: no script use
                 ELSE IF ~Has(e.r, "ok") \/ ~Has(e.r, "attach") THEN attach
                 ELSE LET new == {e.r.attach[i] : i \in 1..Len(e.r.attach)} IN
                      CASE e.op = "AddPlutusInput" -> [attach EXCEPT ![0] = {a \in @ : \A n \in new : a.item # n.item} \cup new]    \* re-registering an outpoint replaces its witness
-                       [] e.op = "SetMint" -> [attach EXCEPT ![1] = new]
-                       [] e.op = "SetCerts" -> [attach EXCEPT ![2] = new]
-                       [] e.op = "SetWithdrawals" -> [attach EXCEPT ![3] = new]
+                       \* (the older mint entry points work on the mint the builder holds: adding leaves the attachments alone,
+                       \* replacing the whole mint or removing it drops them)
+                       [] e.op \in {"SetMint", "SetMintLegacy", "RemoveMint"} -> [attach EXCEPT ![1] = new]
+                       [] e.op \in {"SetCerts", "RemoveCerts"} -> [attach EXCEPT ![2] = new]
+                       [] e.op \in {"SetWithdrawals", "RemoveWithdrawals"} -> [attach EXCEPT ![3] = new]
                        [] e.op = "SetVotes" -> [attach EXCEPT ![4] = new]
                        [] e.op = "SetProposals" -> [attach EXCEPT ![5] = new]
                        [] OTHER -> attach)
@@ -88,7 +90,9 @@ Op(e) ==
                   ELSE IF e.op = "CalcScriptDataHash" THEN <<e.langs>>
                   \* (an input added later - also a key-owned or selected one - moves the spending pointers, which are part of the hashed redeemer bytes)
                   ELSE IF e.op \in {"AddPlutusInput", "AddNativeInput", "SetMint", "SetCerts", "SetWithdrawals", "SetVotes", "SetProposals", "AddExtraDatum", "AddRefInput",
-                                    "AddInput", "AddAny2Input", "AddInputsFrom", "AddInputsFromAndChange", "AddInputsFromAndChangeWithCollateralReturn"} THEN <<>>
+                                    "AddInput", "AddAny2Input", "AddInputsFrom", "AddInputsFromAndChange", "AddInputsFromAndChangeWithCollateralReturn",
+                                    "AddMintAsset", "AddMintAssetAndOutput", "SetMintAsset", "SetMintLegacy", "RemoveMint", "RemoveCerts", "RemoveWithdrawals",
+                                    "SetScriptDataHash", "RemoveScriptDataHash"} THEN <<>>
                   ELSE sdhFresh)
   /\ colPct' = (IF e.op = "AddInputsFromAndChangeWithCollateralReturn" /\ Has(e.r, "ok") THEN <<FromBE(e.pct_n)>> ELSE IF e.op \in ColHelpers \cup {"SetCollateralReturn", "SetTotalCollateral"} THEN <<>> ELSE colPct)
 \* ---- Plutus / script obligations of a built transaction (C09 C10 C18 and the script parts of C06)
@@ -310,6 +314,22 @@ MinAda(e) ==
                  [c |-> e.r.v_n, need |-> ToBE(Mul(cpb, FromSmall(160 + size1)), 0), size |-> size1])
           /\ Chk(Leq(c, Mul(cpb, FromSmall(160 + size8))), "C07", "MinAda/result-above-the-8-byte-bound", sc,
                  [c |-> e.r.v_n, bound |-> ToBE(Mul(cpb, FromSmall(160 + size8)), 0)])
+\* an output made by the output builder with "the least coin it needs" (TransactionOutputAmountBuilder): it is an output the builder
+\* creates, so it has to meet the bound at its own size (no upper bound is demanded: the statement's tightness clause is about the
+\* minimum-ADA function, judged at MinAda)
+OutMin(e) ==
+  /\ UNCHANGED <<env, pp, keys, byron, balanced, stale, feeReq, lastTx, colSt, colPct, scripts, attach, sdhFresh, rereg>>
+  /\ LET sc == e.sc cpb == FromBE(e.cpb_n) IN
+     IF Has(e.r, "panic") THEN Fail("C07", "OutMin/panic", sc, e.r.panic)
+     ELSE IF ~Has(e.r, "ok") THEN TRUE      \* a refusal creates nothing (spurious refusals of the function itself are judged at MinAda)
+     ELSE LET o == Parse(e.r.bytes) IN
+          IF IsErr(o) THEN Fail("C07", "OutMin/output-malformed", sc, o.why)
+          ELSE LET ci == CoinItem(o)
+                   coin == ArgN(ci)
+                   AddrClass == LET a == OutAddrItem(o).str IN IF a # <<>> /\ a[1] \div 16 = 8 THEN "byron" ELSE IF a # <<>> /\ a[1] \div 16 \in {4, 5} THEN "pointer" ELSE "shelley" IN
+               /\ Obl("C07", sc, <<"outmin", o.mt, Len(e.r.bytes), Len(ci.arg), Len(e.cpb_n)>>)
+               /\ Chk(OutMinAdaOk(o, cpb), "C07", "OutMin/created-output-below-min-ada/" \o AddrClass, sc,
+                      [has |-> ToBE(coin, 0), need |-> ToBE(MinAdaOf(o, cpb), 0), size |-> Len(e.r.bytes)])
 Other(e) == UNCHANGED <<env, pp, keys, byron, balanced, stale, feeReq, lastTx, colSt, colPct, scripts, attach, sdhFresh, rereg>>
 Init == l = 1 /\ env = <<>> /\ pp = <<>> /\ keys = <<>> /\ byron = <<>> /\ balanced = FALSE /\ stale = FALSE /\ feeReq = <<"none">> /\ lastTx = <<>> /\ colSt = "unset" /\ colPct = <<>> /\ scripts = <<>> /\ attach = [p \in 0..5 |-> {}] /\ sdhFresh = <<>> /\ rereg = FALSE
 Next == /\ l <= Len(Rec)
@@ -317,7 +337,7 @@ Next == /\ l <= Len(Rec)
            CASE e.ev = "Reset" -> Reset(e)
              [] e.ev = "Op" -> Op(e)
              [] e.ev = "Built" -> Built(e)
-             [] e.ev = "MinAda" -> MinAda(e)
+             [] e.ev = "MinAda" -> MinAda(e) [] e.ev = "OutMin" -> OutMin(e)
              [] OTHER -> Other(e)
         /\ (l = Len(Rec) => Done(l))
         /\ l' = l + 1
